@@ -78,6 +78,10 @@ class MixedUnitaryChannel(raw_types.Gate):
             np.asarray([m[1] for m in self._mixture]), np.asarray([m[1] for m in other._mixture])
         )
 
+    def __hash__(self) -> int:
+        # __eq__ compares the mixture approximately, so only exactly compared data may be hashed.
+        return hash((MixedUnitaryChannel, self._key, self._num_qubits))
+
     def num_qubits(self) -> int:
         return self._num_qubits
 
